@@ -9,7 +9,9 @@ RULE = ("seeded random grammars (names, pure actions, zero-width matches, anchor
         "implementation for parse_string / parse_all / scan_string (overlap, max_matches, always_skip_whitespace); (ii) oracle on the "
         "implementation: parse_all <=> (expr + StringEnd()), matches / == str, scan matches ordered, each equal to a direct parse at its "
         "start, no skipped position would have matched, search_string / transform_string / split are the documented functions of the "
-        "scan list, split pieces + matched separators restore the input; non-trivial = scan with >= 1 match on an input of length >= 2")
+        "scan list, split pieces + matched separators restore the input; (iii) the And of the parse_all theorems (Model/EntryExtra.v "
+        "and_se / and_se_gen) equals, tree for tree, the dumped real `expr + StringEnd()` (built before and after streamline); "
+        "non-trivial = scan with >= 1 match on an input of length >= 2")
 TRUSTED = pcommon.TRUSTED_PARSE
 
 
@@ -184,6 +186,77 @@ def rand_case(rng, i):
     return g, env, sorted(inputs)[:6], has_ignore
 
 
+AND_SE_PREAMBLE = """From Coq Require Import List ZArith NArith Bool.
+From PP Require Import Model.Str Model.Results Model.Prog Model.Core Model.Entry Model.EntryExtra Proofs.EqDec.
+Import ListNotations.
+"""
+
+
+def and_se_tie(ctx, grammars, limit=120):
+    """Model/EntryExtra.v `and_se_gen` / `and_se` ARE the object that `expr + StringEnd()` builds (And.__init__ + streamline):
+    the real object is dumped, its root part handed to the model construction in Coq, and the two attributed trees compared with
+    the decidable equality of Proofs/EqDec.v.  Two real constructions per grammar: (i) `expr + StringEnd()` on the never
+    streamlined expr - the And inherits exprs[0].skipWhitespace / whiteChars as they are at that moment (for a MatchFirst / Or
+    streamline() may recompute them later): compared with `and_se_gen` given the inherited pair read off the real And; (ii) the
+    same on an already streamlined expr (as after any earlier parse_string, and as the oracle above builds it): compared with
+    `and_se`, which takes the pair from the streamlined root.  Grammars the Gallina printer of c16 cannot express (names, actions,
+    ignorables, Forward) are skipped."""
+    import pyparsing as pp
+    from tools.props import c16
+    ok, log = vlib.build_target("Proofs/EqDec.v")
+    if not ok:
+        ctx.broken("correspondence:and_se (Proofs/EqDec.v does not build)")
+        return
+    terms, keys = [], []
+    for (g, env) in grammars:
+        if len(terms) >= 2 * limit:
+            break
+        try:
+            both = []
+            for pre_streamlined in (False, True):
+                e = build.Builder(env).build_all(g)
+                if pre_streamlined:
+                    e.streamline()
+                x = e + pp.StringEnd()
+                x.streamline()
+                d = dump.Dumper()
+                and_sx = observe.parse_sx(d.dump(x)[0])
+                root_sx = observe.parse_sx(d.expr(e))
+                if and_sx[0] != "N" or and_sx[3] != "and" or and_sx[2] != [] or not and_sx[4] or and_sx[4][-1][3] != "stringend":
+                    ctx.broken("correspondence:and_se (%r + StringEnd() is not an And ending in StringEnd: %r)" % (g, and_sx[:4]))
+                    raise c16.NotExpressible("shape")
+                kids = [c16.sx_to_coq(c) for c in and_sx[4][:-1]]
+                se = and_sx[4][-1]
+                if se[2] != []:
+                    raise c16.NotExpressible("ignore on StringEnd")
+                A = and_sx[1]
+                and_t = "(Nary %s [] NAnd [%s])" % (c16.attrs_coq(A), "; ".join(kids + ["(Tok %s [] KStringEnd)" % c16.attrs_coq(se[1])]))
+                root_t = c16.sx_to_coq(root_sx)
+                if pre_streamlined:
+                    model_t = "(and_se %s %s %s DWS %s)" % (A[1], se[1][1], A[13], root_t)
+                else:
+                    model_t = "(and_se_gen %s %s %s DWS %s %s %s)" % (A[1], se[1][1], A[13], c16._b(A[5]), c16._chars(A[6]), root_t)
+                both.append("if expr_eq_dec %s %s then true else false" % (model_t, and_t))
+        except (dump.Unsupported, build.Unbuildable, c16.NotExpressible, RecursionError):
+            ctx.stat("and_se_skipped")
+            continue
+        terms.extend(both)
+        keys.extend([(g, "and_se_gen / not streamlined before +"), (g, "and_se / streamlined before +")])
+    if not terms:
+        return
+    try:
+        res = vlib.coq_eval_terms("c08_and_se", AND_SE_PREAMBLE, terms)
+    except RuntimeError as ex:
+        ctx.broken("correspondence:and_se (model evaluation failed: %s)" % str(ex)[-300:])
+        return
+    for (g, which), r in zip(keys, res):
+        same = r is True
+        ctx.case("and_se:%r:%s" % (g, which), True, same)
+        if not same:
+            ctx.broken("correspondence:and_se (Model/EntryExtra.v %s differs from the real `expr + StringEnd()` for %r)" % (which, g))
+    ctx.stat("and_se_compared", len(keys))
+
+
 def correspond(ctx):
     corr.ensure_driver()
     rng = ctx.rng
@@ -218,6 +291,11 @@ def correspond(ctx):
                 ctx.violation(k if (":" in k) else "%s:%r|%r" % (k, g, inp), "%r on %r: %s" % (g, inp, what),
                               {"kind": "oracle", "grammar": g, "env": env, "input": inp, "ignore": has_ignore})
     ctx.stat("oracle_violations", nbad)
+    # the And of the parse_all theorems is the real `expr + StringEnd()`
+    fixed = [(("word", "ab"), {}), (("and", ("word", "ab"), ("lit", ",")), {}), (("white", " "), {}),
+             (("or", ("and", ("group", ("white", " ")), ("lit", "a"), ("lit", "b")), ("mf", ("lit", "a"), ("lit", "c"))), {}),
+             (("mf", ("lit", "a"), ("lit", "c")), {}), (("star", ("word", "ab")), {}), (("opt", gen.A), {}), (("empty",), {})]
+    and_se_tie(ctx, fixed + [(g, env) for (g, env, _, has_ignore) in cases if not has_ignore])
     ctx.sample({"grammar": cases[0][0], "inputs": cases[0][2]})
 
 
